@@ -152,17 +152,23 @@ def check_one(name, attrib, data, addr):
 _GROUPS = {}
 
 
-def groups():
-    """known findings of C14 (known_findings.json): id -> (architecture family, set of class tags)"""
-    if not _GROUPS:
+def known_groups(pid):
+    """known findings of a property (known_findings.json): id -> (architecture family, set of class tags)"""
+    if pid not in _GROUPS:
         import json
         import os
         d = json.load(open(os.path.join(os.path.dirname(os.path.abspath(__file__)), "..", "known_findings.json")))
+        g = {}
         for f in d["findings"]:
-            if f.get("property") == "C14" and f.get("status", "known") == "known":
-                _GROUPS[f["id"]] = (f["family"], set(f["tags"]))
-        _GROUPS[""] = ("", set())
-    return _GROUPS
+            if f.get("property") == pid and f.get("status", "known") == "known" and "tags" in f:
+                g[f["id"]] = (f["family"], set(f["tags"]))
+        g[""] = ("", set())
+        _GROUPS[pid] = g
+    return _GROUPS[pid]
+
+
+def groups():
+    return known_groups("C14")
 
 
 _CHUNK = {}
